@@ -446,7 +446,17 @@ func (g *gen) loop(c gctx) string {
 		c2.loops = append(append([]string{}, c.loops...), lbl)
 	}
 	var s string
-	switch g.r.Intn(4) {
+	switch g.r.Intn(5) {
+	case 4:
+		// go1.22 per-iteration variable captured by a closure in a loop whose post statement is unreachable
+		// (the body always leaves the loop): the builder creates the post block with its phis and then
+		// removes predecessors again
+		iv := g.fresh("i")
+		leave := g.pick("break\n", c.ret, "panic(\"out\")\n", "if cond() {\nbreak\n}\n"+c.ret)
+		if lbl != "" && g.chance(50) {
+			leave = "break " + lbl + "\n"
+		}
+		s = fmt.Sprintf("for %s := %s; %s < 9; %s++ {\nf = func(k int) int { return k + %s }\nx += f(%s)\n%s%s}\n", iv, g.intE(1), iv, iv, iv, iv, g.body(c2), leave)
 	case 0:
 		iv := g.fresh("i")
 		s = fmt.Sprintf("for %s := 0; %s < %s; %s++ {\nx += %s\n%s}\n", iv, iv, g.intE(1), iv, iv, g.body(c2))
